@@ -367,6 +367,17 @@ class IkeSa(object):
                            ''.format(self.spi_i.hex(), self.spi_r.hex()))
             return None
 
+        # once this IKE_SA has keys, only messages that came through a verified SK payload are processed.
+        # The one cleartext message still answered is a retransmitted IKE_SA_INIT request, with the stored
+        # response and without touching any state.
+        if self.peer_crypto is not None and not message.protected:
+            if (message.exchange_type == Message.Exchange.IKE_SA_INIT and message.is_request
+                    and message.message_id == self.peer_msg_id - 1):
+                self.log_warning('Retransmission of IKE_SA_INIT request detected. Sending last sent message')
+                return self.last_sent_response_data
+            self.log_warning('Received an unprotected message for an IKE_SA that has keys. Ignoring')
+            return None
+
         # receiving any kind of message from the peer resets the DPD timer
         self.start_dpd_at = time.time() + self.configuration.dpd
         if message.is_request:
